@@ -102,6 +102,27 @@ func structureMutants(s *chain.Sim, p chain.BlockPlan, rng *rand.Rand) []mutant 
 		}
 		return true
 	}, false)
+	// a v1 transaction in a block of ANY era (in particular after the v2 require height, where the honest
+	// supplement is empty), with the supplement left as it is, emptied, or sized to match
+	for _, suppMode := range []string{"as-is", "empty", "sized"} {
+		suppMode := suppMode
+		add("block:extra-v1-txn:supplement-"+suppMode, func(mb *types.Block, ms *consensus.V1BlockSupplement) bool {
+			extra := types.Transaction{}
+			if rng.Intn(2) == 0 {
+				extra.ArbitraryData = [][]byte{[]byte("verif")}
+			}
+			mb.Transactions = append(mb.Transactions, extra)
+			switch suppMode {
+			case "empty":
+				ms.Transactions = nil
+			case "sized":
+				for len(ms.Transactions) < len(mb.Transactions) {
+					ms.Transactions = append(ms.Transactions, consensus.V1TransactionSupplement{})
+				}
+			}
+			return true
+		}, true)
+	}
 	add("block:v2-height", func(mb *types.Block, _ *consensus.V1BlockSupplement) bool {
 		if mb.V2 == nil {
 			return false
